@@ -238,4 +238,172 @@ theorem readFrames_good (full : Bool) (h : Header) : ∀ (fuel : Nat) (chk : UIn
       · exact ⟨hz, be32_lt _, be32_lt _, by simp [List.length_take]; omega⟩
       · exact ih _ _ f hf
 
+/-- index (counting from `i`) of the last frame for page `p` -/
+def lastIdx : List Frame → Nat → Nat → Option Nat
+  | [], _, _ => none
+  | f :: rest, i, p =>
+    match lastIdx rest (i + 1) p with
+    | some j => some j
+    | none => if f.pgno = p then some i else none
+
+theorem lastIdx_ge : ∀ (l : List Frame) (i p j : Nat), lastIdx l i p = some j → i ≤ j := by
+  intro l
+  induction l with
+  | nil => intro i p j h; simp [lastIdx] at h
+  | cons f rest ih =>
+    intro i p j h
+    simp only [lastIdx] at h
+    cases hr : lastIdx rest (i + 1) p with
+    | some k => rw [hr] at h; cases h; have := ih _ _ _ hr; omega
+    | none =>
+      rw [hr] at h
+      by_cases hf : f.pgno = p
+      · simp [hf] at h; omega
+      · simp [hf] at h
+
+theorem lastIdx_none_iff : ∀ (l : List Frame) (i p : Nat),
+    lastIdx l i p = none ↔ l.any (fun g => g.pgno == p) = false := by
+  intro l
+  induction l with
+  | nil => intro i p; simp [lastIdx]
+  | cons f rest ih =>
+    intro i p
+    simp only [lastIdx, List.any_cons, Bool.or_eq_false_iff, beq_eq_false_iff_ne]
+    cases hr : lastIdx rest (i + 1) p with
+    | some k =>
+      cases hany : rest.any (fun g => g.pgno == p) with
+      | false => have := (ih (i + 1) p).2 hany; rw [hr] at this; cases this
+      | true => simp
+    | none =>
+      have := (ih (i + 1) p).1 hr
+      by_cases hf : f.pgno = p <;> simp [hf, this]
+
+/-- the loop, on a list that ends with a commit frame -/
+theorem scanLoop_spec : ∀ (l : List Frame) (i : Nat) (tx frames : Nat → Option Nat) (p : Nat),
+    l ≠ [] → openTx l = false →
+    scanLoop l i tx frames p =
+      (match lastIdx l i p with
+       | some j => some j
+       | none => match tx p with | some v => some v | none => frames p) := by
+  intro l
+  induction l with
+  | nil => intro _ _ _ _ h; exact absurd rfl h
+  | cons f rest ih =>
+    intro i tx frames p _ ho
+    by_cases hr : rest = []
+    · subst hr
+      have hc : (f.commit == 0) = false := by simpa [openTx] using ho
+      simp only [scanLoop, hc, lastIdx, mapsCopy, upd]
+      by_cases hp : p = f.pgno
+      · simp [hp, mapsCopy, upd]
+      · have : ¬ f.pgno = p := fun h => hp h.symm
+        simp [hp, this, mapsCopy, upd]
+        cases tx p <;> rfl
+    · have ho' : openTx rest = false := by
+        cases rest with
+        | nil => exact absurd rfl hr
+        | cons g t => simpa [openTx, List.getLast?_cons_cons] using ho
+      simp only [scanLoop, lastIdx]
+      by_cases hc : (f.commit == 0) = true
+      · simp only [hc, if_true]
+        rw [ih (i + 1) _ _ p hr ho']
+        cases lastIdx rest (i + 1) p with
+        | some j => rfl
+        | none =>
+          simp only [upd]
+          by_cases hp : p = f.pgno
+          · simp [hp]
+          · have : ¬ f.pgno = p := fun h => hp h.symm
+            simp [hp, this]
+      · simp only [hc, if_false, Bool.false_eq_true]
+        rw [ih (i + 1) _ _ p hr ho']
+        cases lastIdx rest (i + 1) p with
+        | some j => rfl
+        | none =>
+          simp only [mapsCopy, upd]
+          by_cases hp : p = f.pgno
+          · simp [hp]
+          · have : ¬ f.pgno = p := fun h => hp h.symm
+            simp [hp, this]
+            cases tx p <;> rfl
+
+/-- keeping the frames that are the last for their page = `compactFrames` -/
+theorem keepValues_lastIdx (m : Nat → Option Nat) : ∀ (l : List Frame) (i : Nat),
+    (∀ (k : Nat) (f : Frame), l[k]? = some f → (m f.pgno = some (i + k) ↔ (l.drop (k + 1)).any (fun g => g.pgno == f.pgno) = false)) →
+    keepValues m l i = compactFrames l := by
+  intro l
+  induction l with
+  | nil => intro _ _; rfl
+  | cons f rest ih =>
+    intro i hk
+    have h0 := hk 0 f (by simp)
+    simp only [Nat.add_zero, Nat.zero_add, List.drop_succ_cons, List.drop_zero] at h0
+    have hrest : keepValues m rest (i + 1) = compactFrames rest := by
+      apply ih (i + 1)
+      intro k g hg
+      have := hk (k + 1) g (by simpa using hg)
+      simpa [Nat.add_assoc, Nat.add_comm 1 k] using this
+    simp only [keepValues, compactFrames, hrest]
+    by_cases ha : rest.any (fun g => g.pgno == f.pgno) = true
+    · have : ¬ m f.pgno = some i := fun h => by rw [h0.1 h] at ha; cases ha
+      simp [ha, this]
+    · have ha' : rest.any (fun g => g.pgno == f.pgno) = false := by simpa using ha
+      simp [ha', h0.2 ha']
+
+theorem lastIdx_at : ∀ (l : List Frame) (i k : Nat) (f : Frame), l[k]? = some f →
+    (lastIdx l i f.pgno = some (i + k) ↔ (l.drop (k + 1)).any (fun g => g.pgno == f.pgno) = false) := by
+  intro l
+  induction l with
+  | nil => intro i k f h; simp at h
+  | cons g rest ih =>
+    intro i k f h
+    cases k with
+    | zero =>
+      simp only [List.getElem?_cons_zero, Option.some.injEq] at h
+      subst h
+      simp only [lastIdx, Nat.add_zero, Nat.zero_add, List.drop_succ_cons, List.drop_zero]
+      cases hr : lastIdx rest (i + 1) g.pgno with
+      | some j =>
+        have hge := lastIdx_ge _ _ _ _ hr
+        have hany : rest.any (fun x => x.pgno == g.pgno) = true := by
+          cases ha : rest.any (fun x => x.pgno == g.pgno) with
+          | true => rfl
+          | false => have := (lastIdx_none_iff rest (i + 1) g.pgno).2 ha; rw [hr] at this; cases this
+        simp only [hany, Bool.true_eq_false, iff_false, Option.some.injEq]
+        omega
+      | none =>
+        have := (lastIdx_none_iff rest (i + 1) g.pgno).1 hr
+        simp [this]
+    | succ k' =>
+      have h' : rest[k']? = some f := by simpa using h
+      have := ih (i + 1) k' f h'
+      simp only [lastIdx, List.drop_succ_cons]
+      cases hr : lastIdx rest (i + 1) f.pgno with
+      | some j =>
+        rw [hr] at this
+        simp only at this ⊢
+        rw [← this]
+        constructor <;> intro e <;> (have := Option.some.inj e; congr 1; omega)
+      | none =>
+        -- impossible: f itself is in `rest`
+        have hany := (lastIdx_none_iff rest (i + 1) f.pgno).1 hr
+        have hmem : f ∈ rest := List.mem_of_getElem? h'
+        have : rest.any (fun x => x.pgno == f.pgno) = true := List.any_eq_true.2 ⟨f, hmem, by simp⟩
+        rw [hany] at this; cases this
+
+/-- **scan_literal_eq.** The two-map algorithm of `scan` followed by the sort by offset
+yields, for every frame list that does not end in an open transaction, exactly
+`compactFrames`: the last frame of every page, in file order. -/
+theorem scanLiteral_eq (fs : List Frame) (h : openTx fs = false) : scanLiteral fs = compactFrames fs := by
+  by_cases hne : fs = []
+  · subst hne; rfl
+  · unfold scanLiteral
+    apply keepValues_lastIdx
+    intro k f hk
+    rw [scanLoop_spec fs 0 _ _ f.pgno hne h]
+    have := lastIdx_at fs 0 k f hk
+    cases hl : lastIdx fs 0 f.pgno with
+    | some j => rw [hl] at this; simpa using this
+    | none => rw [hl] at this; simpa using this
+
 end RqModel.Wal
